@@ -32,6 +32,8 @@ NoCrash == S.err = "" \/ SubSeq(S.err, 1, 10) = "unmodelled"
 
 Inv_C01 == P!F_C01_inv(S.cfg, S) = {}
 Inv_C03 == P!F_C03_inv(S.cfg, S) = {}
+Inv_C04 == P!F_C04_inv(S.cfg, S) = {}
+Inv_C12 == P!F_C12_inv(S.cfg, S) = {}
 Inv_C05 == P!F_C05_inv(S.cfg, S) = {}
 Inv_C06 == P!F_C06_inv(S.cfg, S) = {}
 Inv_C07 == P!F_C07_inv(S.cfg, S) = {}
@@ -43,6 +45,8 @@ Inv_C13 == P!F_C13_inv(S.cfg, S) = {}
 Step_C01 == [][P!F_C01_step(S.cfg, S, S') = {}]_S
 Step_C02 == [][P!F_C02_step(S.cfg, S, S') = {}]_S
 Step_C03 == [][P!F_C03_step(S.cfg, S, S') = {}]_S
+Step_C04 == [][P!F_C04_step(S.cfg, S, S') = {}]_S
+Step_C12 == [][P!F_C12_step(S.cfg, S, S') = {}]_S
 Step_C05 == [][P!F_C05_step(S.cfg, S, S') = {}]_S
 Step_C06 == [][P!F_C06_step(S.cfg, S, S') = {}]_S
 Step_C07 == [][P!F_C07_step(S.cfg, S, S') = {}]_S
